@@ -4,7 +4,8 @@
    theorem is for all byte strings / entry lists / allocation counters. *)
 From Verif Require Import Lib.Base Decode.GoSlice Decode.GoSliceFacts Decode.Node Decode.NodeProofs
   Decode.ProofEntries Decode.ProofEntriesProofs Decode.RoundTrip Decode.Quote Decode.QuoteProofs
-  Gen.DecodeConsts Gen.QuoteConsts.
+  Decode.KeyFormat Decode.KeyFormatProofs Decode.Misc Decode.MiscProofs
+  Gen.DecodeConsts Gen.QuoteConsts Gen.MiscConsts.
 
 Theorem gen_layout_expected :
   DepthSize = 2 /\ ValueLengthSize = 4 /\ HashSize = 32 /\
@@ -202,3 +203,59 @@ Theorem quote_huge_siglen_is_err :
        ++ [255; 255; 255; 255]))) = Err Q_TRAILING.
 Proof. exact QuoteProofs.quote_huge_siglen_is_err. Qed.
 Print Assumptions quote_huge_siglen_is_err.
+
+(* ---------- database key formats (go/common/keyformat) and fixed-size helpers ---------- *)
+(* KeyFormat.Decode is NOT total: it panics exactly on an empty key, on a key
+   with the format's prefix that is shorter than the format's fixed size, and
+   when more values than layout elements are passed.  Callers must guarantee
+   the precondition (they do where keys come from prefix iteration over the
+   local database; transaction.ValidateIOWriteLog does not). *)
+Theorem keyformat_decode_panics_iff : forall prefix layout nvals data s, wf_layout layout ->
+  (fst (kf_decode prefix layout nvals data s) = Panic <->
+   data = [] \/
+   (nth 0 data 0 = prefix /\ (N.of_nat (length layout) < nvals \/ glen data < kf_size layout))).
+Proof. exact keyformat_decode_panics_iff_l. Qed.
+Print Assumptions keyformat_decode_panics_iff.
+
+Theorem keyformat_decode_total_refuted :
+  exists prefix layout nvals data,
+    wf_layout layout /\ fst (run (kf_decode prefix layout nvals data)) = Panic.
+Proof. exact keyformat_decode_total_refuted_l. Qed.
+Print Assumptions keyformat_decode_total_refuted.
+
+Theorem keyformat_decode_bounded : forall prefix layout nvals data s, wf_layout layout ->
+  fst (kf_decode prefix layout nvals data s) <> Panic ->
+  snd (kf_decode prefix layout nvals data s) <= s + glen data /\
+  (forall e, fst (kf_decode prefix layout nvals data s) <> Err e).
+Proof. exact keyformat_decode_bounded_l. Qed.
+Print Assumptions keyformat_decode_bounded.
+
+(* hash.Hash, common.Namespace, address.Address, signature.PublicKey/RawSignature,
+   db/api.TypedHash, sgx.MrEnclave/MrSigner, keyformat.PreHashed, artifactKind *)
+Theorem fixed_unmarshal_total : forall size kind data s,
+  fst (fixed_unmarshal size kind data s) <> Panic /\ snd (fixed_unmarshal size kind data s) = s /\
+  (forall d, fst (fixed_unmarshal size kind data s) = Ok d -> d = data /\ glen data = size).
+Proof. exact fixed_unmarshal_total_l. Qed.
+Print Assumptions fixed_unmarshal_total.
+
+(* ---------- IAS quote body (go/common/sgx/ias/quote.go) ---------- *)
+Theorem gen_ias_layout_expected :
+  ias_quoteLen = 432 /\ ias_quoteBodyLen = 48 /\ ias_quoteReportLen = 384 /\
+  ias_offsetReportReportData = 320.
+Proof. exact MiscProofs.gen_ias_layout_expected. Qed.
+Print Assumptions gen_ias_layout_expected.
+
+Theorem decode_ias_quote_total : forall b s,
+  fst (ias_body b s) <> Panic /\ fst (ias_report b s) <> Panic /\ fst (ias_quote b s) <> Panic /\
+  snd (ias_quote b s) <= s.
+Proof. exact decode_ias_quote_total_l. Qed.
+Print Assumptions decode_ias_quote_total.
+
+(* ---------- checkpoint chunk restore loop (go/storage/mkvs/checkpoint/chunk.go:262-312) ----------
+   for every sequence of stream-decoder events (the snappy/CBOR decoder itself is not modelled) *)
+Theorem restore_chunk_total : forall digest_ok evs s,
+  fst (restore_chunk digest_ok evs s) <> Panic /\
+  fst (restore_chunk digest_ok evs s) <> Err (W_CHUNK + E_FUEL) /\
+  snd (restore_chunk digest_ok evs s) <= s + events_len evs.
+Proof. exact restore_chunk_total_l. Qed.
+Print Assumptions restore_chunk_total.
